@@ -1180,6 +1180,9 @@ func (v *FnVC) execReturn(r *ssa.Return, st *State) {
 	env.st = st
 	k := v.ord("ret")
 	v.smoke(fmt.Sprintf("smoke@ret%d", k), v.curGuard, v.posOf(r.Pos()))
+	for _, u := range v.spec.ExitUses {
+		v.useLemma(env, u, v.curGuard)
+	}
 	for i, c := range v.spec.Ensures {
 		goal := v.evalClause(env, c)
 		nm := fmt.Sprintf("ensures#%d", i+1)
@@ -1877,6 +1880,12 @@ func (v *FnVC) loopBack(l *Loop, st *State, cond *Term) {
 	}
 	pos := fmt.Sprintf("%s:%d", shortFile(v.fn.Prog.Fset.Position(v.fn.Pos()).Filename), l.Line)
 	v.smoke(fmt.Sprintf("smoke@%s.back%d", ln, nb), cond, pos)
+	if len(l.Spec.BackUses) > 0 && ls.head != nil {
+		env.iter = v.invEnv(l, ls.head, ls)
+		for _, u := range l.Spec.BackUses {
+			v.useLemma(env, u, cond)
+		}
+	}
 	for i, c := range l.Spec.Invariants {
 		v.oblige("inv-preserve", fmt.Sprintf("inv#%d.preserve@%s%s", i+1, ln, suffix), cond, v.evalClause(env, c), pos, c.Text)
 	}
